@@ -47,6 +47,15 @@ def directed(default_params):
         {"op": "reg.generic", "kw": {"occ": 8, "virt": 8, "general": 9}},
         _expr_step(), {"op": "rename.gen", "slot": 0}, {"op": "rename.sc", "slot": 0},
     ]))
+    # the same history issued alternately from two caller threads (never at the same time)
+    name, pp, st0 = out[-1]
+    out.append(("caller-threads", pp,
+                [dict(st, thread=True) if n % 2 else dict(st) for n, st in enumerate(st0)] +
+                [{"op": "reg.get", "names": ["i", "k4", "a"], "spins": ["", "", ""],
+                  "via": "get_symbols", "thread": True},
+                 {"op": "reg.generic", "kw": {"occ": 3, "virt_a": 2}, "thread": True},
+                 {"op": "rename.sc", "slot": 0, "thread": True},
+                 {"op": "rename.gen", "slot": 0}]))
     # D2 the same in spin-labelled pools
     out.append(("rollover-spin", dict(P, spin_mode=True), [
         {"op": "reg.generic", "kw": {"occ_a": 7, "virt_b": 3}},
